@@ -115,12 +115,12 @@ def install():
                     # O(1) part always, full recomputation for small circuits or a 2% sample
                     ok = self.size == len(self._gates) and sum(self._gate_counts.values()) == self.size
                     why = None if ok else "size/counts sum"
-                    if ok and (self.size <= 12 or _rnd.random() < 0.02):
+                    if ok and (self.size <= 12 or _rnd.random() < (0.02 if self.size <= 500 else 10.0 / self.size)):
                         why = _meta_ok(self)
-                    _record("metadata_after_add_gate", why is None, why=why, gates=repr(_gsnap(self))[:600])
+                    _record("metadata_after_add_gate", why is None, why=why, gates=(None if why is None else repr(_gsnap(self))[:600]))
                 else:
                     why = _meta_ok(self)
-                    _record("metadata_after_" + name, why is None, why=why, gates=repr(_gsnap(self))[:600])
+                    _record("metadata_after_" + name, why is None, why=why, gates=(None if why is None else repr(_gsnap(self))[:600]))
             except Exception as e:  # monitors never disturb the program
                 _record("monitor_error", True, err=repr(e))
             return r
@@ -135,7 +135,7 @@ def install():
 
         @functools.wraps(orig)
         def w(self, *a, **k):
-            small = len(self._gates) <= 400
+            small = len(self._gates) <= 400 and all(len(x._gates) <= 400 for x in a if isinstance(x, Circuit))
             s0 = _gsnap(self) if small else None
             others = [x for x in a if isinstance(x, Circuit)]
             o0 = [_gsnap(x) for x in others] if small else None
@@ -188,7 +188,7 @@ def install():
 
         @functools.wraps(orig)
         def w(self, *a, **k):
-            if len(self.terms) > 3000:
+            if len(self.terms) > 200 or any(len(getattr(x, "terms", ())) > 200 for x in a):
                 return orig(self, *a, **k)
             s0 = fsnap(self)
             o0 = [fsnap(x) for x in a]
